@@ -173,9 +173,9 @@ class Gen:
         self.run.functions.update(q for q in eng.inlined)
         return paths, eng, None
 
-    def add(self, oid, path, goal, tags, extra_hyps=(), finding_key=None, replay=None, kind="post"):
+    def add(self, oid, path, goal, tags, extra_hyps=(), finding_key=None, replay=None, kind="post", margin_goal=None):
         self.obls.append({"id": oid, "hyps": list(path.pc) + list(extra_hyps) + distinct_names(), "goal": goal, "kind": kind, "tags": tags,
-                          "meta": {"finding_key": finding_key, "replay": replay}})
+                          "meta": {"finding_key": finding_key, "replay": replay, "margin_goal": margin_goal}})
 
     def side(self, base, path, tags):
         for k, s in enumerate(path.side):
@@ -225,7 +225,9 @@ class Gen:
                     if p.kind == "return":
                         val, st = p.value
                         law = z3.And(z3.Not(sp["raises"]), to_z(val, "real") == sp["value"])
-                        self.add("%s/law%s@p%d" % (base, cid, pi), p, law, ["C01", "LAW", "C05" if K == "PMux" else "C01"], hy, fk, rep)
+                        dv = to_z(val, "real") - sp["value"]
+                        mlaw = z3.And(z3.Not(sp["raises"]), ZO.abs(dv) <= z3.RealVal("0.001") * (1 + ZO.abs(sp["value"])))
+                        self.add("%s/law%s@p%d" % (base, cid, pi), p, law, ["C01", "LAW", "C05" if K == "PMux" else "C01"], hy, fk, rep, margin_goal=mlaw)
                         offv = st["off"][0] if isinstance(st, dict) else None
                         self.add("%s/state%s@p%d" % (base, cid, pi), p, to_z(offv) == sp["state_off"], ["C01", "C04"], hy, None, None)
                         # C04: dead / inactive => 0 V and OFF
@@ -320,7 +322,8 @@ class Gen:
                     rep = self._replay_inp(comp, a)
                     if p.kind == "return":
                         zv = to_z(p.value, "real")
-                        self.add("%s/law%s@p%d" % (base, cid, pi), p, zv == spv, ["C01", "LAW", "C06", "C05" if K == "PMux" else "C01"], hy, None, rep)
+                        self.add("%s/law%s@p%d" % (base, cid, pi), p, zv == spv, ["C01", "LAW", "C06", "C05" if K == "PMux" else "C01"], hy, None, rep,
+                                 margin_goal=ZO.abs(zv - spv) <= z3.RealVal("0.001") * (1 + ZO.abs(spv)))
                         self.add("%s/nonnegative%s@p%d" % (base, cid, pi), p, zv >= 0, ["C01"], hy)
                         if K == "PMux":
                             dead = hy[0] if clabel == "sel=-1" else z3.BoolVal(False)
